@@ -322,6 +322,10 @@ pub struct DownloadCase {
     pub last_modified: LastModifiedHeader,
     /// declare a larger Content-Length than is sent (transfer cut short)
     pub cut_transfer: bool,
+    /// upload time already carried by the identifier that is passed in (real-time only), e.g. from an
+    /// earlier listing; the returned identifier must carry the downloaded object's Last-Modified instead
+    #[serde(default)]
+    pub identifier_time: Option<i64>,
 }
 
 pub struct ObjectWorld {
@@ -366,7 +370,7 @@ pub fn check_download(c: &DownloadCase) -> Check {
     } else {
         let name = c.name_tail.clone();
         let path = format!("/{}/{}/{}/{}", REALTIME_BUCKET, site, c.volume, name);
-        let id = ChunkIdentifier::new(site.clone(), VolumeIndex::new(c.volume), name, None);
+        let id = ChunkIdentifier::new(site.clone(), VolumeIndex::new(c.volume), name, c.identifier_time.and_then(|t| DateTime::<Utc>::from_timestamp(t, 0)));
         (
             path,
             no_panic("realtime::download_chunk", || {
@@ -543,9 +547,9 @@ fn download_case() -> impl Strategy<Value = DownloadCase> {
         prop_oneof![10 => Just(200u16), 3 => Just(404u16), 1 => Just(403u16), 1 => Just(500u16), 1 => Just(503u16), 1 => Just(206u16), 1 => Just(204u16)],
         body,
         prop_oneof![5 => (946_684_800i64..4_102_444_800).prop_map(LastModifiedHeader::Rfc2822), 1 => Just(LastModifiedHeader::Absent), 1 => Just(LastModifiedHeader::Garbage("yesterday".into())), 1 => Just(LastModifiedHeader::Garbage("2024-08-04T10:10:07Z".into()))],
-        prop_oneof![12 => Just(false), 1 => Just(true)],
+        (prop_oneof![12 => Just(false), 1 => Just(true)], prop_oneof![1 => Just(None), 1 => (946_684_800i64..4_102_444_800).prop_map(Some)]),
     )
-        .prop_map(|(archive, tail, chunk, (year, month, day), hms, volume, status, body, last_modified, cut_transfer)| DownloadCase {
+        .prop_map(|(archive, tail, chunk, (year, month, day), hms, volume, status, body, last_modified, (cut_transfer, identifier_time))| DownloadCase {
             archive,
             name_tail: if archive { tail } else { chunk },
             year,
@@ -557,6 +561,7 @@ fn download_case() -> impl Strategy<Value = DownloadCase> {
             body,
             last_modified,
             cut_transfer,
+            identifier_time,
         })
 }
 
@@ -610,6 +615,7 @@ pub fn run(ctx: &Ctx, rep: &mut Report) {
                 .class(c.status == 404, "not-found")
                 .class(c.status != 200 && c.status != 404, "other-status")
                 .class(c.cut_transfer, "cut-transfer")
+                .class(!c.archive && c.identifier_time.is_some(), "identifier-already-timestamped")
                 .class(matches!(c.body, ObjectBody::StartChunk { len, .. } | ObjectBody::RecordChunk { len, .. } if len >= 100_000), "large-object")
                 .class(!c.name_tail.is_ascii() || c.name_tail.contains(' '), "name-needs-percent-encoding")
         },
@@ -618,6 +624,7 @@ pub fn run(ctx: &Ctx, rep: &mut Report) {
     rep.require_class("downloads", "not-found", 50);
     rep.require_class("downloads", "other-status", 50);
     rep.require_class("downloads", "large-object", 10);
+    rep.require_class("downloads", "identifier-already-timestamped", 50);
 }
 
 pub fn replay(sub: &str, case: &Value) -> Check {
